@@ -451,9 +451,8 @@ func gen(rng *vh.Rng, k int, maxops int) *History {
 	}
 	// the collision profile of this history
 	sameSecond := rng.Chance(1, 4)
-	// class "update-during-run": only in few histories may a manual update hit the run that is still open
-	// (the model's domain excludes it; such histories go through the monitor only)
-	updOpen := rng.Chance(1, 16)
+	// a manual update may hit the run that is still open (since e2affa2 the descriptors are opened in append mode)
+	updOpen := rng.Chance(1, 2)
 	var runs []*grun
 	var cur *grun
 	count := map[string]int{}
